@@ -139,6 +139,25 @@ func dev(args []string) {
 		}
 		cfg.Extra = append(cfg.Extra, eng.ExtraPkg{Dir: *repo + "/uri", Pattern: "github.com/ogen-go/ogen/uri", Mirror: "/verif/contracts/uri"})
 	}
+	if *family == "cred" {
+		os.MkdirAll(*scratch, 0o755)
+		var sets []eng.CredSet
+		for _, q := range append(eng.CredFamily(), eng.CredFamilySampled(12)...) {
+			if *setsFlag == "" || strings.Contains(","+*setsFlag+",", ","+q.ID+",") {
+				sets = append(sets, q)
+			}
+		}
+		mod, err := eng.GenerateCredFamily(*repo, sets, *scratch)
+		if err != nil {
+			fmt.Fprintln(os.Stderr, "family:", err)
+			os.Exit(2)
+		}
+		cfg.ModDir = mod
+		cfg.Pkgs = nil
+		for _, q := range sets {
+			cfg.Extra = append(cfg.Extra, eng.ExtraPkg{Dir: mod + "/" + q.ID, Pattern: "./" + q.ID})
+		}
+	}
 	if *family == "security" {
 		os.MkdirAll(*scratch, 0o755)
 		var sets []eng.SecuritySet
